@@ -518,5 +518,6 @@ func checkC05On(c *Ctx, p *Prog, cfg string) {
 	if sfx == "" {
 		checkC05EscapeSingle(c)
 		checkRound4Misc(c, "C05")
+		checkRound5Small(c, "C05")
 	}
 }
